@@ -14,11 +14,11 @@ CONSTANTS
   InjEst = {"noneed", "need", "elected"}
   InjProc = {"none", "pad"}
   InjSenders = {1, 2}
-  DynDepth = 8
+  DynDepth = 7
   RowMode = "canon"
 INIT Init
 NEXT NextDyn
 CONSTRAINT ConstrDyn
-INVARIANTS TypeOK AssigneeEligible MevIsPerChain GateAll FeesAtElection CeilIsCeil
-PROPERTIES RemoteAddressFromSnapshot NoEligibleNoEnqueue
+INVARIANTS TypeOK AssigneeEligible MevIsPerChain GateAll NoFeesBeforeElection CeilIsCeil
+PROPERTIES RemoteAddressFromSnapshot NoEligibleNoEnqueue AssignedAreEligible FeesOfTheChain
 CHECK_DEADLOCK FALSE
